@@ -214,7 +214,9 @@ def load_module_from_file_object(
 
         # For reasons I don't understand, PyPy 3.2 stores a magic
         # of '0'...  The two values below are for Python 2.x and 3.x respectively
-        if magic[0:1] in ["0", b"0"]:
+        # (48, that is b"0\x00"; other magics that merely end in 0x30, such
+        # as 3376 of 3.6b1, are themselves)
+        if magic[0:2] in ["0\x00", b"0\x00"]:
             magic = int2magic(3180 + 7)
 
         try:
